@@ -587,16 +587,16 @@ theorem removeIntersections_runFrom_noPanic : ∀ (ss : Schemas) (st : RemoveInt
   | [], _, _ => rfl
   | s :: rest, st, h => by
     simp only [List.all_cons, Bool.and_eq_true] at h
-    have hA := phaseA_noPanic (s.objects.map (·.1)) s.objects [] st (objsHintOk_of_all s.objects h.1)
+    have hA := phaseA_noPanic (s.objects.map (·.1)) s.objects [] {} (objsHintOk_of_all s.objects h.1)
     simp only [RemoveIntersections.runFrom, RemoveIntersections.processSchema]
-    cases hp : RemoveIntersections.phaseA (s.objects.map (·.1)) s.objects [] st with
+    cases hp : RemoveIntersections.phaseA (s.objects.map (·.1)) s.objects [] {} with
     | panic _ => rw [hp] at hA; cases hA
     | err _ => rfl
     | ok r =>
       obtain ⟨objs, share, st'⟩ := r
       simp only []
-      have hr := removeIntersections_runFrom_noPanic rest st' h.2
-      cases hq : RemoveIntersections.runFrom rest st' with
+      have hr := removeIntersections_runFrom_noPanic rest {} h.2
+      cases hq : RemoveIntersections.runFrom rest {} with
       | panic _ => rw [hq] at hr; cases hr
       | err _ => rfl
       | ok _ => rfl
